@@ -1,6 +1,6 @@
 (* C09 (reference side): meaning-preserving rewrites preserve the reference behaviour — local equalities that hold
    for every environment, output prefix, loop bound and meaning of calls. *)
-From Coq Require Import ZArith List Bool.
+From Coq Require Import String ZArith List Bool.
 From FV Require Import Core.Syntax Core.Sem.
 Import ListNotations.
 
@@ -21,7 +21,7 @@ Proof. reflexivity. Qed.
 (* call-free expressions *)
 Fixpoint callfree (e : expr) : bool :=
   match e with
-  | ELit _ _ | EBool _ | EVar _ => true
+  | ELit _ _ | EBool _ | EStr _ | EVar _ => true
   | EBin _ a b => callfree a && callfree b
   | EUn _ a => callfree a
   | ECast a _ => callfree a
@@ -36,7 +36,8 @@ Fixpoint callfree (e : expr) : bool :=
 Lemma callfree_no_output : forall e en out r out',
   callfree e = true -> eval structs callf e en out = Ok r out' -> out' = out /\ snd r = en.
 Proof.
-  induction e as [t z|b|x|o a IHa b IHb|o a IHa|a IHa t|f es|sid es|a IHa k|f args]; intros en out r out' Hc H; cbn in *.
+  induction e as [t z|b|s|x|o a IHa b IHb|o a IHa|a IHa t|f es|sid es|a IHa k|f args]; intros en out r out' Hc H; cbn in *.
+  - inversion H; auto.
   - inversion H; auto.
   - inversion H; auto.
   - destruct (lookup x en); inversion H; auto.
@@ -51,10 +52,10 @@ Proof.
                 | context [if ?c then _ else _] => destruct c
                 | context [match ?c with _ => _ end] => destruct c
                 end; try discriminate; inversion H; auto).
-    + destruct va as [| [|] | |]; try discriminate; [|inversion H; auto].
+    + destruct va as [| [|] | | |]; try discriminate; [|inversion H; auto].
       destruct (eval structs callf b en out) as [[vb enb] o2| | |] eqn:Eb; cbn in H; try discriminate.
       destruct (IHb _ _ _ _ Hb Eb) as [-> Henb]. cbn in Henb. subst enb. destruct vb; try discriminate; inversion H; auto.
-    + destruct va as [| [|] | |]; try discriminate; [inversion H; auto|].
+    + destruct va as [| [|] | | |]; try discriminate; [inversion H; auto|].
       destruct (eval structs callf b en out) as [[vb enb] o2| | |] eqn:Eb; cbn in H; try discriminate.
       destruct (IHb _ _ _ _ Hb Eb) as [-> Henb]. cbn in Henb. subst enb. destruct vb; try discriminate; inversion H; auto.
   - destruct o; destruct (eval structs callf a en out) as [[va ena] o1| | |] eqn:Ea; cbn in H; try discriminate;
